@@ -38,6 +38,15 @@ pub enum Timed<T> {
     TimedOut,
 }
 
+impl<T> Timed<T> {
+    pub fn done(self) -> Option<T> {
+        match self {
+            Timed::Done(v) => Some(v),
+            Timed::TimedOut => None,
+        }
+    }
+}
+
 /// Await `f` for at most `ms` virtual milliseconds.
 pub async fn timeout<T>(ms: u64, f: impl Future<Output = T>) -> Timed<T> {
     use std::pin::pin;
